@@ -156,6 +156,21 @@ EmptyOf(ty) == IF ty.k = "arr" THEN [t |-> "arr", v |-> <<>>] ELSE [t |-> "map",
 EmptySupplied(n) ==
   {[t |-> "rec", v |-> [j \in DOMAIN RecBase(n).v |-> IF RecBase(n).v[j].k = FieldsOf(n)[i].n THEN [k |-> RecBase(n).v[j].k, v |-> EmptyOf(FieldsOf(n)[i].ty)] ELSE RecBase(n).v[j]]] :
       i \in {x \in DefaultedIdx(n) : FieldsOf(n)[x].ty.k \in {"arr", "map"}}}
+\* ... and documents that SUPPLY a defaulted primitive field as the zero value of its type (0, false, the empty string):
+\* present is present, whatever the value
+ZeroOf(p) ==
+  CASE p \in {"int32", "int64", "float32", "float64"} -> Num(p, "0")
+    [] p = "bool"   -> [t |-> "bool", v |-> "false"]
+    [] p = "string" -> Str(<<>>)
+    [] p = "bytes"  -> [t |-> "bytes", v |-> <<>>]
+ZeroSupplied(n) ==
+  {[t |-> "rec", v |-> [j \in DOMAIN RecBase(n).v |-> IF RecBase(n).v[j].k = FieldsOf(n)[i].n THEN [k |-> RecBase(n).v[j].k, v |-> ZeroOf(FieldsOf(n)[i].ty.p)] ELSE RecBase(n).v[j]]] :
+      i \in {x \in DefaultedIdx(n) : FieldsOf(n)[x].ty.k = "prim"}}
+\* ... and documents in which that zero value is the ONLY member besides the required fields' base values is covered by
+\* OmitSubsets; here: the zero value as the one and only member (records whose other fields are all optional or defaulted)
+ZeroOnly(n) ==
+  {[t |-> "rec", v |-> << [k |-> FieldsOf(n)[i].n, v |-> ZeroOf(FieldsOf(n)[i].ty.p)] >>] :
+      i \in {x \in DefaultedIdx(n) : FieldsOf(n)[x].ty.k = "prim" /\ \A y \in Idx(FieldsOf(n)) : y # x => (FieldsOf(n)[y].opt \/ FieldsOf(n)[y].def # NoDefault)}}
 
 -----------------------------------------------------------------------------
 (* Norm: the normal form under abstract equality (C10).  Two values are abstractly equal iff their normal forms are  *)
